@@ -149,6 +149,10 @@ def check_point(pt):
         s0 = io.StringIO()
         las.write(s0, version=2.0, fmt="%.3f")
         las = lasio.read(s0.getvalue(), mnemonic_case=cfg["origin"][5:])
+        if len(las.curves) != nc or any(len(c.data) != nr for c in las.curves):
+            return [{"clause": "origin-read-shape", "sig": "origin=" + cfg["origin"], "witness": {"point": pt, "text": s0.getvalue()},
+                     "expected": [nr, nc], "observed": [[len(c.data) for c in las.curves]], "size": nc * 10 + nr,
+                     "repro": "write() of %d curves x %d rows with defaults, then lasio.read(text, mnemonic_case=%r)" % (nc, nr, cfg["origin"][5:])}], True, "ok", {}, 2
         for j, c in enumerate(list(las.curves)):
             c.data = m[:, j].copy()
         names = [n.upper() for n in names]  # the read-back below uses the default mnemonic_case="upper"
